@@ -1,9 +1,11 @@
 import Driver.Util
 import Driver.Pipe
 import Driver.Sys
+import Driver.Cluster
 namespace Driver.Reg.Sys
 def engines : List (String × IO UInt32) := [
   ("pipe", Driver.runEngine Driver.Pipe.engine),
-  ("sys", Driver.runEngine Driver.Sys.engine)
+  ("sys", Driver.runEngine Driver.Sys.engine),
+  ("cluster", Driver.runEngine Driver.Cluster.engine)
 ]
 end Driver.Reg.Sys
